@@ -41,6 +41,8 @@ pub struct Config {
     pub inner_cert: Option<String>,
     /// response to a non-CONNECT request
     pub response: Vec<u8>,
+    /// after the response: keep the connection open and silent for this long (a stalling peer)
+    pub hold_ms: u64,
 }
 
 impl Default for Config {
@@ -51,6 +53,7 @@ impl Default for Config {
             connect_body: Vec::new(),
             inner_cert: Some("good".into()),
             response: b"HTTP/1.1 200 OK\r\nContent-Length: 2\r\n\r\nok".to_vec(),
+            hold_ms: 0,
         }
     }
 }
@@ -122,6 +125,9 @@ fn handle(name: &'static str, stream: TcpStream, cfg: Config, log: &Arc<Mutex<Ve
     if !is_connect {
         let _ = s.write_all(&cfg.response);
         let _ = s.flush();
+        if cfg.hold_ms > 0 {
+            std::thread::sleep(Duration::from_millis(cfg.hold_ms));
+        }
         return;
     }
     if cfg.connect_status != 200 {
@@ -151,6 +157,9 @@ fn handle(name: &'static str, stream: TcpStream, cfg: Config, log: &Arc<Mutex<Ve
         log.lock().unwrap().push(Entry::Request { listener: name, layer: 1, bytes: req2 });
         let _ = inner.write_all(&cfg.response);
         let _ = inner.flush();
+        if cfg.hold_ms > 0 {
+            std::thread::sleep(Duration::from_millis(cfg.hold_ms));
+        }
     }
 }
 
